@@ -36,6 +36,9 @@ import (
 //	kind "set":           statement   recv = <zero value / args[0]>  (Reset(), Store(v))
 //	kind "addret":        statement   recv = recv + arg (at width f); lhs = recv          (atomic Add, sequential meaning)
 //	kind "cas":           statement   if recv == old { recv = new; lhs = true } else { lhs = false }   (CompareAndSwap)
+//	kind "fresh":         statement   recv = f()  where recv is the (pointer) receiver variable itself: the receiver now
+//	                                  denotes a FRESH zeroed object — every field listed in flds gets its zero value and
+//	                                  the nil-ness pseudo-field becomes false (getCheckedEntry(): pool Get + reset)
 //	kind "extstmt":       statement   lhs… = f(recv?, args…)      (several results, external intrinsic)
 //	kind "mutext":        statement   recv, lhs… = f(recv, args…) (external intrinsic that also updates its receiver)
 //	kind "funOn":         statement   lhs… = translated function f(args…) called on a HANDLE (a local of a named type):
@@ -933,7 +936,7 @@ func (x *xl) addTrace(c *ast.CallExpr, sh shim, key string, args []string) {
 	if !ok {
 		x.fail(c, "shim %s names the unmapped trace field %s", key, sh.trace)
 	}
-	rec := append([]string{"(.lit (.bytes " + leanBytes([]byte(sh.f)) + "))"}, args...)
+	rec := append([]string{"(.lit (.bytes " + leanBytes([]byte(sh.f)) + ") /- " + strings.NewReplacer("-/", "- /", "/-", "/ -").Replace(sh.f) + " -/)"}, args...)
 	pendingCall.traceStmt = "(.assign [(.fld " + leanStr(fs.lean) + ")] [(.call \"append\" [(.fld " + leanStr(fs.lean) +
 		"), (.call \"tuple\" [" + strings.Join(rec, ", ") + "])])])"
 	pendingCall.pureTrace = true
@@ -1434,6 +1437,39 @@ func (x *xl) assign(t *ast.AssignStmt) string {
 			x.fail(t, "op-assignment changes the type %s to %s", typ, v.typ)
 		}
 		return "(.assign [" + lv + "] [" + v.lean + "])"
+	}
+	// `recv = fresh()`: the receiver variable is re-pointed to a fresh zeroed object
+	if len(t.Lhs) == 1 && len(t.Rhs) == 1 && t.Tok == token.ASSIGN {
+		if id, ok := t.Lhs[0].(*ast.Ident); ok && id.Name == x.recvVar && x.recvVar != "" {
+			if _, shadow := x.lookup(id.Name); !shadow {
+				c, isCall := t.Rhs[0].(*ast.CallExpr)
+				var sh shim
+				found := false
+				if isCall && len(c.Args) == 0 {
+					if fid, ok := c.Fun.(*ast.Ident); ok {
+						sh, found = x.fn.calls[fid.Name]
+					}
+				}
+				if !found || sh.kind != "fresh" || x.fn.recvNil == "" {
+					x.fail(t, "assignment to the receiver variable is only supported as recv = <fresh object>() with a nil-able receiver")
+				}
+				lvs := []string{"(.fld " + leanStr(x.fn.recvNil) + ")"}
+				vals := []string{"(.lit (.bool false))"}
+				for _, fl := range sh.flds {
+					fs, ok := x.fn.fields[fl]
+					if !ok {
+						x.fail(t, "shim fresh names the unmapped field %s", fl)
+					}
+					z, ok := zeroOf(fs.typ)
+					if !ok {
+						x.fail(t, "shim fresh: no zero value for field %s of type %s", fl, fs.typ)
+					}
+					lvs = append(lvs, "(.fld "+leanStr(fs.lean)+")")
+					vals = append(vals, "(.lit ("+z+"))")
+				}
+				return "(.assign [" + strings.Join(lvs, ", ") + "] [" + strings.Join(vals, ", ") + "])"
+			}
+		}
 	}
 	// a single call on the right with a statement-level meaning
 	if len(t.Rhs) == 1 {
